@@ -389,7 +389,8 @@ impl FatVolume {
     }
 
     /// Finds a empty entry space and writes the new entry to it, allocates a new cluster if it's
-    /// needed
+    /// needed. The new entry refers to `first_cluster` (which is `ClusterId::EMPTY` for a new,
+    /// empty file).
     pub(crate) fn write_new_directory_entry<D, T>(
         &mut self,
         block_cache: &mut BlockCache<D>,
@@ -397,6 +398,7 @@ impl FatVolume {
         dir_cluster: ClusterId,
         name: ShortFileName,
         attributes: Attributes,
+        first_cluster: ClusterId,
     ) -> Result<DirEntry, Error<D::Error>>
     where
         D: BlockDevice,
@@ -439,7 +441,7 @@ impl FatVolume {
                                 let entry = DirEntry::new(
                                     name,
                                     attributes,
-                                    ClusterId::EMPTY,
+                                    first_cluster,
                                     ctime,
                                     block_idx,
                                     (i * OnDiskDirEntry::LEN) as u32,
@@ -502,7 +504,7 @@ impl FatVolume {
                                 let entry = DirEntry::new(
                                     name,
                                     attributes,
-                                    ClusterId(0),
+                                    first_cluster,
                                     ctime,
                                     block_idx,
                                     (i * OnDiskDirEntry::LEN) as u32,
@@ -1295,9 +1297,12 @@ impl FatVolume {
 
     /// Create a new directory.
     ///
-    /// 1) Creates the directory entry in the parent
-    /// 2) Allocates a new cluster to hold the new directory
-    /// 3) Writes out the `.` and `..` entries in the new directory
+    /// 1) Allocates a new cluster to hold the new directory
+    /// 2) Writes out the `.` and `..` entries in the new directory
+    /// 3) Creates the directory entry in the parent
+    ///
+    /// The entry in the parent is written last, so the parent never refers to a
+    /// directory that has no cluster, or whose cluster is not filled in yet.
     pub(crate) fn make_dir<D, T>(
         &mut self,
         block_cache: &mut BlockCache<D>,
@@ -1310,15 +1315,48 @@ impl FatVolume {
         D: BlockDevice,
         T: TimeSource,
     {
-        let mut new_dir_entry_in_parent =
-            self.write_new_directory_entry(block_cache, time_source, parent, sfn, att)?;
-        if new_dir_entry_in_parent.cluster == ClusterId::EMPTY {
-            new_dir_entry_in_parent.cluster = self.alloc_cluster(block_cache, None, false)?;
-            // update the parent dir with the cluster of the new dir
-            self.write_entry_to_disk(block_cache, &new_dir_entry_in_parent)?;
+        let new_dir_cluster = self.alloc_cluster(block_cache, None, false)?;
+        let result = self
+            .fill_new_dir(block_cache, time_source, parent, new_dir_cluster, att)
+            .and_then(|_| {
+                self.write_new_directory_entry(
+                    block_cache,
+                    time_source,
+                    parent,
+                    sfn,
+                    att,
+                    new_dir_cluster,
+                )
+            });
+        match result {
+            Ok(new_dir_entry_in_parent) => {
+                debug!("Made new dir entry {:?}", new_dir_entry_in_parent);
+                Ok(())
+            }
+            Err(e) => {
+                // Nothing refers to the new cluster, so give it back. The first
+                // error is the interesting one.
+                let _ = self.free_cluster_chain(block_cache, new_dir_cluster);
+                Err(e)
+            }
         }
-        let new_dir_start_block = self.cluster_to_block(new_dir_entry_in_parent.cluster);
-        debug!("Made new dir entry {:?}", new_dir_entry_in_parent);
+    }
+
+    /// Writes the `.` and `..` entries into the first block of a new directory's
+    /// cluster, and blanks the rest of the cluster.
+    fn fill_new_dir<D, T>(
+        &mut self,
+        block_cache: &mut BlockCache<D>,
+        time_source: &T,
+        parent: ClusterId,
+        new_dir_cluster: ClusterId,
+        att: Attributes,
+    ) -> Result<(), Error<D::Error>>
+    where
+        D: BlockDevice,
+        T: TimeSource,
+    {
+        let new_dir_start_block = self.cluster_to_block(new_dir_cluster);
         let now = time_source.get_timestamp();
         let fat_type = self.get_fat_type();
         // A blank block
@@ -1330,7 +1368,7 @@ impl FatVolume {
             ctime: now,
             attributes: att,
             // point at ourselves
-            cluster: new_dir_entry_in_parent.cluster,
+            cluster: new_dir_cluster,
             size: 0,
             entry_block: new_dir_start_block,
             entry_offset: 0,
